@@ -131,6 +131,7 @@ type vResult struct {
 	Notes        []string       `json:"notes"`
 	Exhaustive   bool           `json:"exhaustive"`
 	Done         bool           `json:"done"`
+	totalViol    int
 	maxSamples   int
 	maxDistinct  int
 	curCase      int
@@ -191,6 +192,7 @@ func (r *vResult) note(s string) {
 
 func (r *vResult) violate(rule, shape, what string, witness interface{}) {
 	r.mu.Lock()
+	r.totalViol++
 	// keep at most 5 witnesses per (rule, shape) so one defect does not flood the output
 	n := 0
 	for _, v := range r.Violations {
@@ -217,7 +219,7 @@ func (r *vResult) inconclusive(why string) {
 func (r *vResult) nViol() int {
 	r.mu.Lock()
 	defer r.mu.Unlock()
-	return len(r.Violations)
+	return r.totalViol
 }
 
 // flush writes the result file (atomically). Called at the end and after every violation.
